@@ -14,9 +14,26 @@ QUIRK_OF_SIG = {"unnamed-nested-sentinel": "q_unnamed_sentinel", "gomod-module-l
                 "config-goquote": "q_cfg_goquote"}
 BIT_SIG = {64: "unnamed-nested-sentinel", 128: "gomod-module-line", 256: "config-goquote"}
 
-DIRS = ["a", "b", "sub", "subx", "lib", "v1.2", "a.b", "my dir", 'q"t', "it's", "d-1", "x_y", "r", "r2"]
-SCRIPTS = ["x.arrai", "y.arrai", "util.arrai", "main.arrai", "m.v2.arrai", "z z.arrai", "k.arrai", "w.arrai"]
-DATA = ["d.json", "cfg.yaml", "n.yml", "raw.txt", "blob.bin", "v.1.json", "noext.d"]
+DIRS = ["a", "b", "sub", "subx", "lib", "v1.2", "a.b", "my dir", 'q"t', "it's", "d-1", "x_y", "r", "r2",
+        "module", "unnamed", ".cfg"]
+LONG_DIR, LONG_SCRIPT = "L" * 150, "N" * 200 + ".arrai"      # used rarely: long names through zip headers
+SCRIPTS = ["x.arrai", "y.arrai", "util.arrai", "main.arrai", "m.v2.arrai", "z z.arrai", "k.arrai", "w.arrai",
+           ".hidden.arrai", "a.b.c.arrai", "config.arrai"]
+DATA = ["d.json", "cfg.yaml", "n.yml", "raw.txt", "blob.bin", "v.1.json", "noext.d", "rows.csv", "e.mpty.txt"]
+BYTES_EXT = (".txt", ".bin", ".d")      # no implicit decoder: imported as bytes
+EMPTY_TAG, WS_TAG = 0, -1                # content identity of a zero-length file / of a file holding only "\n"
+
+
+def data_variant(rng, nm):
+    """content form of a data file: the archive must carry zero-length and whitespace-only files like any other
+    (empty .arrai scripts are not generated: the parser does not terminate on them, a C10 matter)"""
+    if nm.endswith(".csv"):
+        return "empty"
+    r = rng.random()
+    if nm.endswith(BYTES_EXT):
+        return "empty" if r < 0.22 else "ws" if r < 0.32 else "nl" if r < 0.45 else "pad" if r < 0.5 else "plain"
+    return "nl" if r < 0.2 else "pad" if r < 0.27 else "plain"
+
 MODNAMES = ["m", "github.com/x/y", "ex.com/a b", "n.io/p.q"]
 GOMOD_FORMS = [("module %s\n", 60), ("module %s\n\ngo 1.20\n", 15), ("module %s\r\n", 6), ("module %s", 6),
                ("// c\nmodule %s\n", 6), ("module  %s\n", 3), ("module %s // c\n", 2), ("\nmodule %s\n", 2)]
@@ -42,10 +59,15 @@ class Layout:
         self.files = {}      # abs path tuple -> dict(tag, imps|None, text, bytes)
         self.tag = 0
 
-    def add(self, p, text=None, imps=None, raw=None):
+    def add(self, p, text=None, imps=None, raw=None, variant=None):
         self.tag += 1
-        self.files[tuple(p)] = {"tag": self.tag, "imps": imps, "raw": raw, "text": text}
-        return self.tag
+        tag = self.tag
+        if variant == "empty":
+            tag, text = EMPTY_TAG, ""
+        elif variant == "ws":
+            tag, text = WS_TAG, "\n"
+        self.files[tuple(p)] = {"tag": tag, "imps": imps, "raw": raw, "text": text, "variant": variant}
+        return tag
 
 
 def imp_text(i):
@@ -61,11 +83,13 @@ def render(L):
         elif f["text"] is not None:
             content = f["text"]
         elif f["imps"] == [] and not p[-1].endswith(".arrai"):
-            content = str(f["tag"])      # data file: valid JSON/YAML, and a valid script without imports
+            # data file: valid JSON/YAML, and a valid script without imports
+            content = str(f["tag"]) + {"nl": "\n", "pad": " " * 3000 + "\n"}.get(f.get("variant"), "")
         elif f["imps"] is None:
             content = "1 +"
         else:
             content = "(t: %d, i: [%s])" % (f["tag"], ", ".join(imp_text(i) for i in f["imps"]))
+            content += {"script-nl": "\n", "script-comment": "\n# trailing comment\n"}.get(f.get("variant"), "")
         out.append(["/" + "/".join(p), content])
     return out
 
@@ -90,6 +114,9 @@ def gen_valid(rng, tier):
     L = Layout()
     depth = rng.choice([1, 1, 2, 2, 3])
     base = tuple(rng.choice(DIRS) for _ in range(depth))
+    longnames = rng.random() < 0.06
+    if longnames:
+        base = base[:-1] + (LONG_DIR,)
     mode = rng.choice(["none", "none", "base", "base", "base", "base+nested", "nested-only", "above", "above+nested"])
     if mode.startswith("above") and len(base) < 2:
         mode = "base"
@@ -115,11 +142,22 @@ def gen_valid(rng, tier):
         roots.append(top)
     if mode in ("base+nested", "nested-only", "above+nested") and len(rels) > 1:
         roots.append(base + rng.choice(rels[1:]))
+    main_rel = rng.choice(rels)
     modforms = {}
+    main_root = None
+    for r in roots:
+        if under(base + main_rel, r) and (main_root is None or len(r) > len(main_root)):
+            main_root = r
     for k, r in enumerate(roots):
         form = wchoice(rng, GOMOD_FORMS)
         name = rng.choice(MODNAMES) if k == 0 else rng.choice(["n", "ex.com/n"])
-        L.add(r + ("go.mod",), raw=form % name)
+        x = rng.random()
+        if r != main_root and x < 0.33:
+            # a root marker made with `touch go.mod`: only the main script's own go.mod needs a module line
+            form = "" if x < 0.25 else "\n"
+            L.add(r + ("go.mod",), raw=form)
+        else:
+            L.add(r + ("go.mod",), raw=form % name)
         modforms[r] = form
 
     def root_of(d):
@@ -131,7 +169,6 @@ def gen_valid(rng, tier):
 
     # files: index 0 is main
     nfiles = rng.randrange(1, 8 if tier == "quick" else 10)
-    main_rel = rng.choice(rels)
     specs = []
     used = set()
     for k in range(nfiles):
@@ -144,6 +181,8 @@ def gen_valid(rng, tier):
                 pool = [base + r for r in rels if under(base + r, base + main_rel)] if rng.random() < 0.6 else [base + r for r in rels]
                 d = rng.choice(pool)
                 nm = rng.choice(SCRIPTS) if rng.random() < 0.7 else rng.choice(DATA)
+                if longnames and rng.random() < 0.3:
+                    nm = LONG_SCRIPT
             if d + (nm,) not in used:
                 used.add(d + (nm,))
                 specs.append((d, nm))
@@ -159,6 +198,7 @@ def gen_valid(rng, tier):
             specs.append((nr, "na.arrai"))
             specs.append((nr + ("deep",), "nb.arrai"))
             forced = [(0, ia, None), (ia, ib, True), (ib, ia, None)]
+    variant = {k: data_variant(rng, nm) for k, (d, nm) in enumerate(specs) if k and not nm.endswith(".arrai")}
     edges = {k: [] for k in range(len(specs))}
     forms_used = set()
 
@@ -190,7 +230,9 @@ def gen_valid(rng, tier):
                 s = noise(rng, segs + [spelled])
                 if root and rng.random() < 0.05:
                     s = [".."] + s
-                dec = isdata and rng.random() < 0.35
+                dec = isdata and variant.get(j) not in ("empty", "ws") and rng.random() < 0.35
+                if variant.get(j) in ("empty", "ws"):
+                    forms_used.add("zero-length" if variant[j] == "empty" else "whitespace-only")
                 edges[i].append({"root": root, "path": "/" + "/".join(s), "dec": dec})
                 forms_used.add(("root" if root else "rel") + ("-data" if isdata else "") + ("-dec" if dec else ""))
     for i, j, want_root in forced:
@@ -207,10 +249,11 @@ def gen_valid(rng, tier):
         forms_used.add("missing")
     for k, (d, nm) in enumerate(specs):
         if nm.endswith(".arrai") or k == 0:
-            L.add(d + (nm,), imps=edges[k])
+            x = rng.random()
+            L.add(d + (nm,), imps=edges[k], variant="script-nl" if x < 0.1 else "script-comment" if x < 0.15 else None)
         else:
-            L.add(d + (nm,), imps=[])      # digits: valid as data and as a script without imports
-    shape = {"mode": mode, "main_depth": len(main_rel), "files": len(specs), "forms": sorted(forms_used),
+            L.add(d + (nm,), imps=[], variant=variant[k])      # digits: valid as data and as a script without imports
+    shape = {"mode": mode, "long_names": longnames, "main_depth": len(main_rel), "files": len(specs), "forms": sorted(forms_used),
              "gomod": sorted(set(modforms.values()))}
     return L, base + main_rel + (specs[0][1],), shape
 
@@ -297,6 +340,13 @@ CORPUS = [
                       "/r/sub/a.arrai": [], "/r/b/c.arrai": [{"root": True, "path": "/sub/a", "dec": False}], "/r/sub/d.json": []}, "/r/sub/main.arrai"),
     ("prefix-sibling", {"/a/b/go.mod": "module m\n", "/a/b/main.arrai": [{"root": True, "path": "/c/x", "dec": False}], "/a/b/c/x.arrai": [], "/a/bc/x.arrai": []}, "/a/b/main.arrai"),
     ("crlf", {"/r/go.mod": "module m\r\n", "/r/main.arrai": [{"root": True, "path": "/a", "dec": False}], "/r/a.arrai": []}, "/r/main.arrai"),
+    ("kf06-modname-dotdot", {"/b/go.mod": "module ..\n", "/b/run.arrai": [{"root": False, "path": "/config", "dec": False}], "/b/config.arrai": []}, "/b/run.arrai"),
+    ("zero-length-data", {"/app/go.mod": "module example.com/app\n", "/app/main.arrai": [{"root": False, "path": "/data/notes.txt", "dec": False}, {"root": True, "path": "/data/rows.csv", "dec": False}, {"root": False, "path": "/data/n.json", "dec": False}],
+                          "/app/data/notes.txt": "EMPTY", "/app/data/rows.csv": "EMPTY", "/app/data/n.json": []}, "/app/main.arrai"),
+    ("zero-length-data-unnamed", {"/app/main.arrai": [{"root": False, "path": "/data/notes.txt", "dec": False}, {"root": False, "path": "/w.bin", "dec": False}],
+                                  "/app/data/notes.txt": "EMPTY", "/app/w.bin": "WS"}, "/app/main.arrai"),
+    ("zero-length-nested-sentinel", {"/app/go.mod": "module example.com/app\n", "/app/main.arrai": [{"root": False, "path": "/sub/x", "dec": False}, {"root": True, "path": "/util", "dec": False}],
+                                     "/app/util.arrai": [], "/app/sub/go.mod": "", "/app/sub/x.arrai": [{"root": True, "path": "/util", "dec": False}], "/app/sub/util.arrai": []}, "/app/main.arrai"),
     ("nested-in-module", {"/r/go.mod": "module m\n", "/r/main.arrai": [{"root": False, "path": "/n/x", "dec": False}], "/r/n/go.mod": "module n\n",
                           "/r/n/x.arrai": [{"root": True, "path": "/y", "dec": False}], "/r/n/y.arrai": [], "/r/y.arrai": []}, "/r/main.arrai"),
 ]
@@ -308,7 +358,9 @@ def corpus_cases():
         L = Layout()
         for p, v in files.items():
             t = tuple(p[1:].split("/"))
-            if isinstance(v, str):
+            if v in ("EMPTY", "WS"):
+                L.add(t, imps=[], variant={"EMPTY": "empty", "WS": "ws"}[v])
+            elif isinstance(v, str):
                 L.add(t, raw=v)
             else:
                 L.add(t, imps=v)
@@ -336,9 +388,9 @@ def imp_term(i):
 def file_term(f):
     if f["raw"] is not None:
         imps = "Some []" if f["raw"].strip().isdigit() else "None"
-        return "{| f_tag := %d; f_imps := %s; f_bytes := %s |}" % (f["tag"], imps, seg_term(f["raw"]))
+        return "{| f_tag := (%d); f_imps := %s; f_bytes := %s |}" % (f["tag"], imps, seg_term(f["raw"]))
     imps = "None" if f["imps"] is None else "Some [" + "; ".join(imp_term(i) for i in f["imps"]) + "]"
-    return "{| f_tag := %d; f_imps := %s; f_bytes := [] |}" % (f["tag"], imps)
+    return "{| f_tag := (%d); f_imps := %s; f_bytes := [] |}" % (f["tag"], imps)
 
 
 def layout_term(L):
@@ -349,7 +401,7 @@ def parse_tree(d):
     """canonical dump of a value -> otree term, or None"""
     if "n" in d:
         try:
-            return "(ONode %d [])" % int(d["n"])
+            return "(ONode (%d) [])" % int(d["n"])
         except ValueError:
             return None
     if "t" in d:
@@ -366,8 +418,10 @@ def parse_tree(d):
         ch = [parse_tree(x) for _, x in items]
         if any(c is None for c in ch):
             return None
-        return "(ONode %d [%s])" % (int(a["t"]["n"]), "; ".join(ch))
-    if "s" in d:      # bytes holding the decimal tag
+        return "(ONode (%d) [%s])" % (int(a["t"]["n"]), "; ".join(ch))
+    if "s" in d:      # bytes holding the decimal tag; a zero-length file is {} and a newline-only file is <<10>>
+        if d["s"] == [] and d.get("c") == 0:
+            return "(ONode (%d) [])" % EMPTY_TAG
         bs = []
         for m in d["s"]:
             mm = dict((k, v) for k, v in m.get("t", []))
@@ -376,7 +430,8 @@ def parse_tree(d):
             bs.append((float(mm["@"]["n"]), int(mm["@byte"]["n"])))
         bs.sort()
         try:
-            return "(ONode %d [])" % int(bytes(b for _, b in bs).decode().strip())
+            txt = bytes(b for _, b in bs).decode()
+            return "(ONode (%d) [])" % (WS_TAG if txt.strip() == "" else int(txt.strip()))
         except Exception:
             return None
     return None
@@ -399,6 +454,10 @@ def oracle(o):
     if o is None or "src" not in o:
         return "harness produced no observation: %s" % (o or {}).get("setup_err")
     src = o["src"]
+    if src.get("st") == "timeout" or o.get("bst") == "timeout" or any(r.get("st") == "timeout" for r in o.get("runs", [])):
+        return None      # wall-clock budget hit (loaded machine; non-termination is C10's/C16's subject): no verdict
+    if o.get("zip_err"):
+        return "the written archive is not a readable zip: %s" % o["zip_err"]
     if o.get("reads"):
         return "the bundle run touched the host file system: %s" % o["reads"][:4]
     runs = o.get("runs", [])
@@ -452,6 +511,10 @@ def pyrule_sig(case, o):
             break
     if root is not None and not re.search(r"(?m)^module[ \t]+(\S+)", L.files[root]["raw"] or ""):
         return "gomod-no-module-line"
+    if root is not None:
+        m = re.search(r"(?m)^module[ \t]+(\S+)", L.files[root]["raw"] or "")
+        if m and ".." in m.group(1).split("/"):
+            return "modname-dotdot"
     cfgs = (o.get("config") or "").replace("\\\\", "")
     if o.get("bst") == "ok" and re.search(r"\\[xuU]", cfgs):
         return "config-goquote"
@@ -463,11 +526,14 @@ def q_term(run):
     return "{| " + "; ".join("%s := %s" % (k, cbool(k in on)) for k in QUIRK_OF_SIG.values()) + " |}"
 
 
-def run_cases(run, vh, cases, shard=120):
+def run_cases(run, vh, cases, shard=None):
     t0 = time.time()
-    outs, rc, err = run_harness(vh, "c15", [{"id": c["id"], "files": render(c["L"]), "main": "/" + "/".join(c["main"])} for c in cases])
+    outs, rc, err = run_harness(vh, "c15", [{"id": c["id"], "files": render(c["L"]), "main": "/" + "/".join(c["main"]), "budget_ms": 8000} for c in cases], stall=60)
     log("c15: harness %.1fs for %d cases" % (time.time() - t0, len(cases)))
     q = q_term(run)
+    if shard is None:      # few coqc processes (start-up dominates on a loaded machine), at most ~170 cases each
+        nsh = max(2, -(-len(cases) // 170))
+        shard = -(-len(cases) // nsh)
     chunks = [cases[i:i + shard] for i in range(0, len(cases), shard)]
 
     def do(idx_chunk):
@@ -517,9 +583,11 @@ def main(tier, seed, replay=None):
             for p, content in rp["case"]["files"]:
                 L.add(tuple(p[1:].split("/")), raw=content)
             # a replay carries the rendered files; imports are re-read from the model section
+            content = dict((p, c) for p, c in rp["case"]["files"])
             for p, f in rp["case"].get("model", {}).items():
                 t = tuple(p[1:].split("/"))
-                L.files[t]["imps"], L.files[t]["raw"], L.files[t]["text"] = f["imps"], f["raw"], f["text"]
+                L.files[t].update({"imps": f["imps"], "raw": f["raw"], "text": content[p] if f["raw"] is None else None,
+                                   "tag": f.get("tag", L.files[t]["tag"])})
             cases.append({"L": L, "main": tuple(rp["case"]["main"][1:].split("/")), "shape": rp["case"].get("shape", {}), "stream": "replay"})
     else:
         seeds = [seed] if tier == "quick" else [seed, seed + 1]
@@ -527,7 +595,7 @@ def main(tier, seed, replay=None):
             cases.append({"L": L, "main": m, "shape": sh, "stream": "corpus"})
         for s in seeds:
             rng = random.Random(s)
-            n = 450 if tier == "quick" else 2500
+            n = 200 if tier == "quick" else 2500
             for _ in range(n):
                 if rng.random() < 0.8:
                     L, m, sh = gen_valid(rng, tier)
@@ -539,7 +607,7 @@ def main(tier, seed, replay=None):
         c["id"] = k
     outs, results = run_cases(run, vh, cases)
 
-    hist = {"stream": {}, "mode": {}, "main_depth": {}, "forms": {}, "gomod": {}, "mutation": {}, "outcome": {}, "files": {}}
+    hist = {"stream": {}, "mode": {}, "long_names": {}, "main_depth": {}, "forms": {}, "gomod": {}, "mutation": {}, "outcome": {}, "files": {}}
     seen, dist, outside, guard_false, pre_mismatch = set(), 0, 0, 0, 0
     hit_sigs = set()
     for c in cases:
@@ -547,7 +615,7 @@ def main(tier, seed, replay=None):
         code = results.get(c["id"])
         sh = c["shape"]
         hist["stream"][c["stream"]] = hist["stream"].get(c["stream"], 0) + 1
-        for k in ("mode", "main_depth", "mutation", "files"):
+        for k in ("mode", "main_depth", "mutation", "files", "long_names"):
             if k in sh:
                 hist[k][str(sh[k])] = hist[k].get(str(sh[k]), 0) + 1
         for k in ("forms", "gomod"):
@@ -567,7 +635,7 @@ def main(tier, seed, replay=None):
         guard = not (code & 32)
         mism = code & 15
         ksigs = [BIT_SIG[b] for b in (64, 128, 256) if code & b]
-        model = {p_: {"imps": f["imps"], "raw": f["raw"], "text": f["text"]} for p_, f in (("/" + "/".join(p), f) for p, f in c["L"].files.items())}
+        model = {p_: {"imps": f["imps"], "raw": f["raw"], "text": f["text"], "tag": f["tag"]} for p_, f in (("/" + "/".join(p), f) for p, f in c["L"].files.items())}
         rec = {"case": dict(describe(c), model=model), "observed": o, "model_code": code, "oracle": fail}
         if code & 512:
             run.notes.append("model out of fuel on case %d" % c["id"])
